@@ -1419,3 +1419,27 @@ def replay(ctx, data):
     if fn == "BudgetAccountant.remaining":
         return call_kind(dp.BudgetAccountant(1.0, 0.5).remaining, args[0])[0] == "ok"
     return False
+
+
+# ------------------------------------------------------------------------------------------------ known findings
+def _wit_nan_bound_later_feature(ctx):
+    """a NaN per-feature bound at a later feature is accepted by check_bounds (`lower > upper` is False for NaN) and refused
+    only when that cell is reached — after earlier cells were computed and charged"""
+    import warnings as _w
+    acc = dp.BudgetAccountant()
+    X = np.random.RandomState(0).rand(10, 4)
+    raised = None
+    with _w.catch_warnings():
+        _w.simplefilter("ignore")
+        try:
+            dp.tools.mean(X, epsilon=1.0, bounds=([0, 0, np.nan, 0], [1, 1, 1, 1]), axis=0, random_state=0, accountant=acc)
+        except Exception as e:  # noqa
+            raised = type(e).__name__
+    spent = [(float(e), float(d)) for e, d in acc.spent_budget]
+    return bool(raised and spent), (
+        f"mean(X(10x4), epsilon=1.0, bounds=([0, 0, nan, 0], [1, 1, 1, 1]), axis=0) raised {raised} but the accountant recorded "
+        f"{spent}: check_bounds accepts a NaN bound (`lower > upper` is False), the per-cell call for feature 2 refuses it after "
+        f"features 0 and 1 were released-and-charged internally (the same for var, std, sum, quantile and their nan variants)")
+
+
+WITNESSES = {"C13:tools:nan-bound-at-later-feature:partial-spend": _wit_nan_bound_later_feature}
